@@ -6,7 +6,8 @@
    phase_s s = PEmpty (no engine / no listeners) | PRunning | PStopping (rootCtx cancelled)
    | PShutdown (inShutdown set).  e_hist is the history, NEWEST FIRST. *)
 From GV Require Import Lib.Trace Lib.Interleave Model.Engine Proofs.EngineBase Proofs.EngineInv Proofs.EngineHist
-  Proofs.EngineConns Proofs.EngineWorkers Proofs.EngineProgress Proofs.EngineProofs Proofs.EngineExtra Proofs.EngineQueue.
+  Proofs.EngineConns Proofs.EngineWorkers Proofs.EngineProgress Proofs.EngineProofs Proofs.EngineExtra Proofs.EngineQueue
+  Proofs.EngineClient.
 From Coq Require Import List ZArith.
 Import ListNotations.
 Open Scope list_scope.
@@ -163,6 +164,23 @@ Theorem C19_client_calls_follow_state : forall s g, get_user s g = Some UIdle ->
   (e_insd s = false -> estep_opt s (TU g) (CCall KCliStop) = None).
 Proof. exact client_calls_follow_state. Qed.
 Print Assumptions C19_client_calls_follow_state.
+
+(* what a Client.Dial / Enroll that has not returned yet waits for: its register task is queued on a
+   loop of the client; and when that loop is polling, the loop runs the task (OnOpen) and the
+   call returns nil.  (A Dial whose task is queued on a loop that has already exited never
+   returns: the same stranding as the recorded finding for Register.) *)
+Theorem C19_client_dial_queued : forall s g, ereachable s -> get_user s g = Some (UEnrollWait false) ->
+  exists li l cid, get_loop s li = Some l /\ In (TReg cid (OUser g)) (l_q l).
+Proof. exact client_dial_queued. Qed.
+Print Assumptions C19_client_dial_queued.
+
+Theorem C19_client_dial_completes_partial : forall s g, ereachable s -> get_user s g = Some (UEnrollWait false) ->
+  (forall li l cid, get_loop s li = Some l -> In (TReg cid (OUser g)) (l_q l) -> l_pc l = LPoll) ->
+  exists tr s' li idx cid, exec (fun_step estep) s tr s' /\
+    map fst tr = [(TL li, CRun idx h_none); (TU g, CNone)] /\ get_user s' g = Some UIdle /\
+    e_hist s' = (TU g, KRes RNil) :: (TL li, KOpen cid) :: e_hist s.
+Proof. exact client_dial_completes_open. Qed.
+Print Assumptions C19_client_dial_completes_partial.
 
 (* what a waiting registration waits for: its task is queued on its loop *)
 Theorem C19_registration_queued : forall s k w, ereachable s ->
